@@ -158,9 +158,15 @@ prop('C03', level='other', units=[ZX + 'find_zerox', ZX + '_find_flank_midpoints
      explanation='Proved (all four orders of first extremum / count relation, unbounded): find_zerox returns one rise per '
                  'trough->peak flank and one decay per peak->trough flank, in temporal order, paired with the right extrema '
                  '(index bias), each midpoint inside its flank; the flank window is [start extremum, end extremum] inclusive; no index '
-                 'error / empty-median for alternating extrema. find_flank_zerox is verified inline. Bounded only: the exact '
-                 'position (sample just before the half-height crossing, temporal median rounded down, fallbacks) - every integer-valued '
-                 'signal over {-1,0,1,2} up to length 6 (7) x every alternating extrema sequence.')
+                 'error / empty-median for alternating extrema. find_flank_zerox is verified inline. The exact position is proved for an '
+                 'ARBITRARY flank (per-iteration postcondition of the loop in _find_flank_midpoints, all four flank / index-bias '
+                 'cases): with W the raw samples from the start to the end extremum and h the voltage halfway between them, the '
+                 'midpoint is the start plus the temporal median, rounded down, of the samples just before W crosses h in the flank\'s '
+                 'direction (<= h then > h for a rise, > h then <= h for a decay); the temporal centre of W when W is identically zero, '
+                 'when the flank is inverted, or when h is never crossed that way. np.median is an uninterpreted reduction of the '
+                 'crossing-index array (same array in code and clause), so what "median" means is assumed. Bounded cross-check: every '
+                 'integer-valued signal over {-1,0,1,2} up to length 6 (7) x every alternating extrema sequence against an independent '
+                 'reference.')
 
 prop('C08', level='proof',
      units=[BU + 'check_min_burst_cycles'],
